@@ -1,17 +1,21 @@
 use crate::{utils::generic, Context};
 use proc_macro2::TokenStream;
 use quote::quote;
-use syn::{Data, DeriveInput, Index};
+use syn::{Data, DeriveInput};
 
 pub fn validate_code(ctx: &Context, input: &DeriveInput, bytes_ident: &TokenStream) -> TokenStream {
     if let Data::Enum(data) = &input.data {
         let tag_type = ctx.info.tag_type.as_ref().unwrap();
-        let var_count = Index::from(data.variants.len());
+        // Compare with the discriminant of every variant (they may be given explicitly).
+        let is_variant = data.variants.iter().fold(quote! { false }, |accum, var| {
+            let ident = &var.ident;
+            quote! { #accum || *tag == (Self::#ident as #tag_type) }
+        });
         quote! {
             use ::flatty::{traits::*, error::{Error, ErrorKind}};
             <#tag_type>::validate_unchecked(#bytes_ident)?;
             let tag = <#tag_type>::from_bytes_unchecked(#bytes_ident);
-            if *tag < #var_count {
+            if #is_variant {
                 Ok(())
             } else {
                 Err(Error {
